@@ -263,7 +263,7 @@ func (c *Channel) Invoke(ctx context.Context, method string, req, resp interface
 			_ = writeMessage(ctx, nil, ch, frame{trailers: t})
 		}
 		if err != nil {
-			_ = writeMessage(ctx, nil, ch, frame{err: err})
+			_ = writeMessage(ctx, nil, ch, frame{err: handlerError(err)})
 		}
 	}()
 
@@ -530,8 +530,19 @@ func (s *inProcessServerStream) finish(err error) {
 	s.trailers = nil
 
 	if err != nil {
-		_ = writeMessage(s.ctx, nil, s.responses, frame{err: err})
+		_ = writeMessage(s.ctx, nil, s.responses, frame{err: handlerError(err)})
 	}
+}
+
+// handlerError converts an error returned by a server handler the same way a
+// standard gRPC server does: status errors are sent as is, anything else
+// (including context errors and io.EOF, which the client side would otherwise
+// mistake for a normal end of stream) becomes a status error.
+func handlerError(err error) error {
+	if _, ok := status.FromError(err); ok {
+		return err
+	}
+	return status.FromContextError(err).Err()
 }
 
 func (s *inProcessServerStream) SetTrailer(md metadata.MD) {
